@@ -69,7 +69,7 @@ def make_prior(kind="default", poly_trend=1, n_offsets=0, sigma_K0=30.0, P0_days
     return out
 
 
-def make_data(n=5, layout="short", err="hetero", unit="km/s", t_ref=None, seed=0, n_surveys=1, mixed_units=False):
+def make_data(n=5, layout="short", err="hetero", unit="km/s", t_ref=None, seed=0, n_surveys=1, mixed_units=False, t_ref_scale="tcb"):
     """Returns (data or list of data, plain dict t, y, sig [km/s], t_ref, labels)."""
     import astropy.units as u
     from astropy.time import Time
@@ -98,8 +98,9 @@ def make_data(n=5, layout="short", err="hetero", unit="km/s", t_ref=None, seed=0
     kw = {}
     tr = float(t.min())
     if t_ref is not None:
-        tr = float(t_ref)
-        kw["t_ref"] = Time(tr, format="mjd", scale="tcb")
+        trT = Time(float(t_ref), format="mjd", scale=t_ref_scale)
+        kw["t_ref"] = trT
+        tr = float(trT.tcb.mjd)  # the reference epoch is barycentric (TCB) MJD internally, whatever scale it was given in
     if n_surveys == 1:
         data = tj.RVData(Time(t, format="mjd", scale="tcb"), y * f * uu, sig * f * uu, **kw)
     else:
